@@ -3,7 +3,8 @@ From Coq Require Import List ZArith NArith.
 From GV Require Import Front.Infix Front.InfixProofs Front.OpLookup Front.OpLookupProofs.
 From GV Require Import Front.InfixComplete.
 From GV Require Import Front.SpanCheck Front.SpanCheckProofs Front.LayoutCheck Front.LayoutCheckProofs.
-From GV Require Front.Layout Front.LayoutProofs.
+From GV Require Front.AstEq.
+From GV Require Front.LayoutBase Front.Layout Front.LayoutProofs Front.LayoutModelProofs.
 Import ListNotations.
 
 (* The in-order traversal of the re-associated tree is the input chain. *)
@@ -121,3 +122,31 @@ Theorem C08_if_else_statement_separator :
               LayoutProofs.has_semi out = negb LayoutTablesGen.close_block_resets_semi.
 Proof. exact LayoutProofs.if_else_statement_separator. Qed.
 Print Assumptions C08_if_else_statement_separator.
+
+(* The model only INSERTS virtual tokens.  On a run that reaches the end of the input the emitted
+   stream is exactly the input (non-EOF, non-block tokens followed by one EOF: what the tokenizer
+   produces) with OpenBlock / CloseBlock / Semi / In tokens inserted — nothing dropped, reordered or
+   altered. *)
+Theorem C08_layout_model_preserves_tokens : forall (body : list LayoutBase.mtok) e out,
+  Forall (fun t => LayoutBase.k t <> LayoutBase.TEOF) body -> LayoutBase.k e = LayoutBase.TEOF ->
+  Forall (fun t => ~ LayoutModelProofs.oc t) body ->
+  Layout.layout (body ++ [e]) = Layout.ROk out ->
+  LayoutModelProofs.ins (LayoutModelProofs.real out) body.
+Proof. exact LayoutModelProofs.layout_model_preserves_tokens. Qed.
+Print Assumptions C08_layout_model_preserves_tokens.
+
+(* ... and whatever the outcome of the run (UnindentedTooFar, panic, ...), for every stream ending in
+   EOF: what has been emitted is, up to inserted virtual tokens, a prefix of the input (EOF tokens
+   disregarded). *)
+Theorem C08_layout_model_preserves_prefix : forall raw : list LayoutBase.mtok,
+  LayoutBase.k (last raw (LayoutBase.MTok LayoutBase.TEOF 12 0 1 0 0)) = LayoutBase.TEOF ->
+  exists rest, LayoutModelProofs.ins
+                 (LayoutModelProofs.real (LayoutModelProofs.out_of (Layout.layout raw) ++ rest))
+                 (LayoutModelProofs.real raw).
+Proof. exact LayoutModelProofs.layout_model_preserves_tokens_partial. Qed.
+Print Assumptions C08_layout_model_preserves_prefix.
+
+(* The comparator the round trip uses for the two canonical trees decides equality. *)
+Theorem C08_ast_eqb_eq : forall a b : AstEq.sx, AstEq.ast_eqb a b = true <-> a = b.
+Proof. exact AstEq.ast_eqb_eq. Qed.
+Print Assumptions C08_ast_eqb_eq.
